@@ -1,4 +1,5 @@
 import Dagrt.Proofs.FuseProofs
+import Dagrt.Proofs.RenameProofs
 /-!
 # C16 — fusing two methods runs both on shared persistent state without interference
 
@@ -7,10 +8,14 @@ Model: `Dagrt.Fuse` (`Model/Fuse.lean`) = `fuse_two_phases` with pymbolic's
 model of C13.  `clash` = the iteration order of the set of names used by both methods (any
 order); the second statement list is in any order.  Theorems are for all pairs of statement
 lists, every renaming predicate, every such order.
-The behavioural clause (each method computes what it computes alone) is checked by the
-failing-input search with the real interpreter; in the model it follows from the structural
-theorems below and `C02.exec_comm` (statements of the two parts do not conflict), which is not
-assembled into one theorem here.
+The behavioural clause: `renamed_method_computes_the_same` / `fused_second_method_runs_as_alone` -
+renaming commutes with execution (`Sem.exec_rename`, the substitution lemma for the whole statement
+semantics), so the renamed second method, run in the fused store, computes under the new names
+exactly what the second method computes alone under the old ones - in particular the same
+persistent variables, events and status.  That the first method's statements do not disturb it
+follows from the structural theorems below (`temporaries_disjoint`) and `C02.exec_comm`; the two
+halves are not assembled into one theorem, and the whole clause is checked by the failing-input
+search with the real interpreter.
 -/
 namespace Dagrt.C16
 open Dagrt Dagrt.Sem Dagrt.Names Dagrt.Fuse
@@ -147,6 +152,41 @@ theorem deps_translated (pred : Name → Bool) (clash : List Name) (A B out : Li
   have hmem := lookupId_mem m d d' hl
   refine ⟨hmem, ?_⟩
   rw [hids]; exact List.mem_map.mpr ⟨(d, d'), hmem, rfl⟩
+
+/-! ### the renamed method computes what the method computes -/
+
+/-- a list of statements executed one after another (any schedule of a method's statements) -/
+def runList (F : Funs) (l : List Stmt) (σ : Store) : Store := l.foldl (fun σ s => exec F s σ) σ
+
+/-- **The renamed method computes the same**, statement list by statement list: for every
+    injective renaming that leaves the event pseudo-variable and the meaning of function symbols
+    alone, every statement list, every pair of stores that correspond through the renaming -/
+theorem renamed_method_computes_the_same (F : Funs) (ρ : Name → Name) (hinj : ∀ x y, ρ x = ρ y → x = y)
+    (hF : ∀ f vs ks, F (ρ f) vs ks = F f vs ks) (hexec : ρ EXEC = EXEC) :
+    ∀ (l : List Stmt) (σ σ' : Store), Rel ρ σ σ' → Rel ρ (runList F l σ) (runList F (l.map (renameStmt ρ)) σ')
+  | [], _, _, h => h
+  | s :: l, σ, σ', h => by
+    simp only [runList, List.map_cons, List.foldl_cons]
+    exact renamed_method_computes_the_same F ρ hinj hF hexec l _ _ (exec_rename F ρ hinj hF hexec s σ σ' h)
+
+/-- **In the fused method the second method runs as it runs alone**: whatever store `σ1` the first
+    method leaves, the renamed second method turns it into a store that holds, under the new names,
+    exactly what the second method alone makes of `σ1` read through the renaming (its own temporaries
+    start unset - their new names are fresh -, persistent variables are shared and unrenamed) -/
+theorem fused_second_method_runs_as_alone (F : Funs) (ρ : Name → Name) (hinj : ∀ x y, ρ x = ρ y → x = y)
+    (hF : ∀ f vs ks, F (ρ f) vs ks = F f vs ks) (hexec : ρ EXEC = EXEC) (B : List Stmt) (σ1 : Store) :
+    Rel ρ (runList F B (fun x => σ1 (ρ x))) (runList F (B.map (renameStmt ρ)) σ1) :=
+  renamed_method_computes_the_same F ρ hinj hF hexec B _ σ1 (fun _ => rfl)
+
+/-- in particular every variable the renaming leaves alone - the persistent variables, time and step
+    size under the default predicate (`persistent_unrenamed`) - ends with the value the second method
+    alone gives it, and the events and the status of the step are the same -/
+theorem fused_second_method_persistent_results (F : Funs) (ρ : Name → Name) (hinj : ∀ x y, ρ x = ρ y → x = y)
+    (hF : ∀ f vs ks, F (ρ f) vs ks = F f vs ks) (hexec : ρ EXEC = EXEC) (B : List Stmt) (σ1 : Store)
+    (x : Name) (hx : ρ x = x) :
+    runList F (B.map (renameStmt ρ)) σ1 x = runList F B (fun y => σ1 (ρ y)) x := by
+  have := fused_second_method_runs_as_alone F ρ hinj hF hexec B σ1 x
+  rwa [hx] at this
 
 /-! non-vacuity: both methods use the temporary `a`, the flag `<cond>`, the id `p_0`, and read `<t>` -/
 def exA : List FStmt := [⟨"p_0".toList, [], ⟨.const (.bool true), .assign "a" none (.var "<t>") []⟩⟩]
